@@ -270,6 +270,7 @@ def run(ctx, res):
                 "non-trivial = non-constant population / sample")
     res.samples = [nnm.case_json(c) for c in cases[:2]]
     res.stats = dict(nnm.branch_stats(cases), **hist)
-    res.assumptions = ["theorems cover ALPHA/betting/SPRT for finite N; Kaplan-Kolmogorov and the N=infinity (IID) cases are covered by "
-                       "the correspondence and the exact-enumeration oracles only (stated in PC01.v)",
+    res.assumptions = ["finite N: full theorems for ALPHA (all estimators), betting (fixed, aGRAPA), SPRT, Kaplan-Kolmogorov; "
+                       "N=infinity: theorems are PARTIAL (finite-support laws with rational masses, every horizon) for ALPHA, betting, SPRT, "
+                       "Kaplan-Markov, Kaplan-Wald; continuous laws are outside the formal statement",
                        "np.sqrt: any function with nonnegative values (theorems)"]
